@@ -109,7 +109,19 @@ func init() {
 			ex := Eval(w)
 			pipeCap := []int{64, 16, 32, 256}[c.Tape.Choose(simrt.StGen, 4, 0)]
 			again := c.Tape.Choose(simrt.StGen, 3, 0) == 1
-			inc := RunInc(w, c.Tape, nil, 0, IncOpts{KillAt: -1, Strategy: strategyOf(c.Tape), Trace: c.Trace, PipeCap: pipeCap})
+			// a third of the cases on an otherwise idle machine: the clock advances only
+			// when no goroutine can run, and every command lasts at least 1 ms. A
+			// consumer whose command ends LATER (in simulated time) than its producer's
+			// then builds its record after the producer's zero-time bookkeeping - the
+			// window of known finding F-C17-1 is closed, the audit link must be there
+			idle := c.Tape.Choose(simrt.StGen, 3, 0) == 1
+			o1 := IncOpts{KillAt: -1, Strategy: strategyOf(c.Tape), Trace: c.Trace, PipeCap: pipeCap}
+			if idle {
+				o1.NoEarlyTimers = true
+				o1.MinDur = 1e6
+				c.Probe("idle-machine-mode")
+			}
+			inc := RunInc(w, c.Tape, nil, 0, o1)
 			c.Absorb(inc)
 			if v, ok := inconclusiveEnd(inc); ok {
 				return v
@@ -133,6 +145,48 @@ func init() {
 			if v := flowOracle(inc, ex); v.Status != "ok" {
 				return v
 			}
+			if idle {
+				exitNS := map[string]int64{}
+				for _, e := range inc.Sim.Shell.Trace {
+					if e.Kind == "exit" && e.Code == 0 {
+						exitNS[e.Key] = e.NS
+					}
+				}
+				for _, t := range ex.Tasks {
+					if t.Proc != "cons" && t.Proc != "cons2" {
+						continue
+					}
+					sp := t.Ins["a"].Path
+					var prod *RTask
+					for _, p := range ex.Tasks {
+						for _, op := range p.Outs {
+							if p.Proc == "prod" && op == sp {
+								prod = p
+							}
+						}
+					}
+					tc, ok1 := exitNS[t.Key]
+					if prod == nil || !ok1 {
+						continue
+					}
+					tp, ok2 := exitNS[prod.Key]
+					if !ok2 || tc <= tp {
+						continue
+					}
+					c.Probe("consumer-ends-after-producer-on-idle-machine")
+					r, err := readAudit(inc.Sim.FS.Root, Abs(t.Outs["o0"]))
+					if err != nil {
+						return Viol("audit-unreadable", "", "%v", err)
+					}
+					if up := r.Upstream[sp]; up == nil || up.ProcessName != "prod" {
+						got := "no record"
+						if up != nil {
+							got = fmt.Sprintf("process %q, command %q", up.ProcessName, up.Command)
+						}
+						return Viol("stream-audit-link", "idle-machine", "the command of consumer task %s ended %d ns after the command of its producer %s (idle machine: nothing else could delay the producer's bookkeeping), yet %s.audit.json names as upstream of %s: %s", t.Key, tc-tp, prod.Key, t.Outs["o0"], sp, got)
+					}
+				}
+			}
 			if v := auditOracle(inc.Sim.FS.Root, ex, instsByKey(inc)); v.Status != "ok" {
 				if strings.HasPrefix(v.Clause, "audit-") && (strings.Contains(v.Detail, ".prod.s]") || strings.Contains(v.Detail, ".prod.s2]")) {
 					v.Sig = "stream-consumer-bookkeeping-first"
@@ -153,6 +207,13 @@ func init() {
 					sig := "end=" + inc2.Sim.End.String()
 					if inc2.Sim.End == simrt.EndDeadlock && strings.Contains(inc2.Sim.DeadlockString(), "open(O_WRONLY) of fifo") {
 						sig = "rerun-of-completed-stream-pair"
+						for _, o := range w.NodeByName("prod").Outs {
+							if !o.Stream {
+								// the producer also has an ordinary output, which exists: it must
+								// have been skipped like its consumer (not the known finding)
+								sig = "rerun-blocks-although-producer-has-an-existing-ordinary-output"
+							}
+						}
 					}
 					return Viol("stream-rerun-no-termination", sig, "second run of a completed streaming workflow does not terminate normally: %s", endDesc(inc2))
 				}
